@@ -5,7 +5,7 @@ cd /verif
 for d in seeded/*/; do
   id=$(basename $d)
   prop=$(python3 -c "import json;print(json.load(open('$d/meta.json'))['breaks_property'])")
-  git -C /repo apply $d/patch.diff 2>/dev/null || { echo "$id: patch does not apply (repo moved on)"; continue; }
+  git -C /repo apply /verif/$d/patch.diff 2>/dev/null || { echo "$id: patch does not apply (repo moved on)"; continue; }
   out=$(./check $prop quick 2>&1); rc=$?
   git -C /repo checkout -- .
   n=$(echo "$out" | grep -c '^VIOLATION')
